@@ -11,6 +11,7 @@ import (
 	"unsafe"
 
 	mocker "github.com/tencent/goom"
+	varscopy "github.com/tencent/goom/zzverif/c08/a/github.com/tencent/goom/zzverif/c08/vars"
 	"github.com/tencent/goom/zzverif/c08/vars"
 	"github.com/tencent/goom/zzverif/vmon"
 )
@@ -23,6 +24,9 @@ func f2() int { return 2 }
 var ch1, ch2 = make(chan int), make(chan int, 3)
 var e1, e2 = errors.New("e1"), errors.New("e2")
 var sp1, sp2 = &vars.S{A: 11}, &vars.S{A: 12}
+
+// CopyLinked keeps the copy of the vars package (same names behind a longer import path) in the binary.
+var CopyLinked = len(varscopy.Descs)
 
 func values(typ string) []interface{} {
 	switch typ {
